@@ -13,11 +13,14 @@ import (
 func corpusFns[T safemath.Integer]() map[string]func(T, T) (T, error) {
 	return map[string]func(T, T) (T, error){
 		"tcNarrow": tcNarrow[T], "tcTuple": tcTuple[T], "tcSwitch": tcSwitch[T], "tcLoopShift": tcLoopShift[T], "tcLoopMul": tcLoopMul[T],
-		"safeAddCopy": safeAddCopy[T], "tcBits": tcBits[T],
+		"safeAddCopy": safeAddCopy[T], "tcBits": tcBits[T], "tcTypeSwitch": tcTypeSwitch[T], "tcViaSwitch": tcViaSwitch[T],
 	}
 }
 
-var corpusNames = []string{"tcNarrow", "tcTuple", "tcSwitch", "tcLoopShift", "tcLoopMul", "safeAddCopy", "tcBits"}
+var corpusNames = []string{"tcNarrow", "tcTuple", "tcSwitch", "tcLoopShift", "tcLoopMul", "safeAddCopy", "tcBits", "tcTypeSwitch", "tcViaSwitch"}
+
+// the functions with a type switch also run at the defined types
+var corpusSwitchNames = []string{"tcTypeSwitch", "tcViaSwitch"}
 
 func corpusRun[T safemath.Integer](name string, x, y *big.Int) (out string) {
 	defer func() {
@@ -36,6 +39,8 @@ func corpusRun[T safemath.Integer](name string, x, y *big.Int) (out string) {
 var corpusTable = map[string]func(string, *big.Int, *big.Int) string{
 	"u8": corpusRun[uint8], "i8": corpusRun[int8], "u16": corpusRun[uint16], "i16": corpusRun[int16],
 	"u32": corpusRun[uint32], "i32": corpusRun[int32], "u64": corpusRun[uint64], "i64": corpusRun[int64],
+	"du8": corpusRun[dU8], "di8": corpusRun[dI8], "du16": corpusRun[dU16], "di16": corpusRun[dI16],
+	"du32": corpusRun[dU32], "di32": corpusRun[dI32], "du64": corpusRun[dU64], "di64": corpusRun[dI64],
 }
 
 // corpusExec answers `corpus NAME KIND x y`.
@@ -63,7 +68,11 @@ func corpusExec(f []string) string {
 
 // corpusAll emits the corpus lines: every x of the 8-bit types with 40 selected y, boundary-biased samples of the wider types.
 func corpusAll(r *hx.Run) {
-	for _, kn := range []string{"u8", "i8"} {
+	for _, kn := range []string{"u8", "i8", "du8", "di8"} {
+		names := corpusNames
+		if kn[0] == 'd' {
+			names = corpusSwitchNames
+		}
 		k := kindOf(kn)
 		lo, hi := k.min().Int64(), k.max().Int64()
 		var ys []int64
@@ -79,14 +88,18 @@ func corpusAll(r *hx.Run) {
 				r.Case(uint64(x + 5000))
 			}
 			for _, y := range ys {
-				for _, n := range corpusNames {
+				for _, n := range names {
 					emit(r, "corpus "+n+" "+kn+" "+strconv.FormatInt(x, 10)+" "+strconv.FormatInt(y, 10))
 				}
 			}
 		}
 	}
 	n := 150 * r.Scale
-	for _, k := range kinds[2:] {
+	for _, k := range append(append([]kind(nil), kinds[2:]...), definedKinds[2:]...) {
+		names := corpusNames
+		if k.name[0] == 'd' {
+			names = corpusSwitchNames
+		}
 		_, sub := r.Rng.Fork()
 		r.Case(sub)
 		for i := 0; i < n; i++ {
@@ -94,7 +107,7 @@ func corpusAll(r *hx.Run) {
 			if r.Rng.Chance(1, 3) {
 				y = clamp(k, big.NewInt(int64(r.Rng.Intn(70))))
 			}
-			for _, nm := range corpusNames {
+			for _, nm := range names {
 				emit(r, "corpus "+nm+" "+k.name+" "+x.String()+" "+y.String())
 			}
 			if k.name == "u64" {
